@@ -350,7 +350,7 @@ fn main() {
     canaries(&check);
 
     let x = Excl::all();
-    let n_models = check.tier.pick(6_000u32, 200_000);
+    let n_models = check.tier.pick(24_000u32, 600_000);
     pt::run(
         &check,
         "m2-random",
@@ -371,7 +371,7 @@ fn main() {
     );
     // a slice of the random volume runs with every switch off: measures the excluded regions at
     // depth (all failures there must be known findings)
-    let n_open = check.tier.pick(600u32, 20_000);
+    let n_open = check.tier.pick(2_000u32, 40_000);
     pt::run(
         &check,
         "m2-random-unrestricted",
@@ -381,7 +381,7 @@ fn main() {
         |(c, _)| jm(c),
         |(c, _)| run_model(&check, "open:", c),
     );
-    let n_skin = check.tier.pick(6_000u32, 200_000);
+    let n_skin = check.tier.pick(16_000u32, 400_000);
     pt::run(
         &check,
         "skin-random",
@@ -400,13 +400,13 @@ fn main() {
     pt::run(
         &check,
         "skin-random-unrestricted",
-        check.tier.pick(600u32, 20_000),
+        check.tier.pick(1_000u32, 20_000),
         pt::Opts::default(),
         || skin_spec(Excl::none()),
         |(s, _)| js(s),
         |(s, _)| run_skin(&check, "open:", s),
     );
-    let n_anim = check.tier.pick(6_000u32, 200_000);
+    let n_anim = check.tier.pick(10_000u32, 200_000);
     pt::run(
         &check,
         "anim-random",
@@ -424,7 +424,7 @@ fn main() {
     pt::run(
         &check,
         "anim-random-unrestricted",
-        check.tier.pick(600u32, 20_000),
+        check.tier.pick(1_000u32, 20_000),
         pt::Opts::default(),
         || anim_spec(Excl::none()),
         |(a, _)| ja(a),
